@@ -43,6 +43,13 @@ CHECKS["C04"] = dict(
          "offset. Does not decide aliasing of overlapping operands.",
     design="DESIGN.md §6 C04")
 
+CHECKS["C05"] = dict(
+    technique="abstract interpretation of MIR in the per-bit copy domain (exact data movement) + affine forms for SP and stack addresses, all register alternatives enumerated",
+    text="Decides exactly, per production and register alternative (456 MOV/XCHG variants, 29 stack variants): every destination bit is a copy of the "
+         "corresponding source bit, nothing else changes, no flag changes (except POPF/SAHF); SP' = SP -/+ 2 mod 2^16; stack cells at (16*SS+SP) mod 2^20 "
+         "low byte first; LAHF/SAHF; XLAT address form. Interleaved push/pop histories follow by induction and are not re-checked.",
+    design="DESIGN.md §6 C05")
+
 NOT_YET = {}
 
 
